@@ -9,7 +9,7 @@
    begin, end); the returned logical is  raw << bits + suffix  (suffix 0 for the Global allocator, d+1
    for dc number d).  `first g` is the first value of the range g, `val g` its last. *)
 From Coq Require Import ZArith List.
-From PDV Require Import lib.Base gen.Gen_C05 model.C05_TsoGlobal proof.C05_Proof proof.C05_Skel.
+From PDV Require Import lib.Base gen.Gen_C05 model.C05_TsoGlobal model.C05_Join proof.C05_Proof proof.C05_JoinProof proof.C05_Skel.
 Import ListNotations.
 Local Open Scope Z_scope.
 
@@ -86,6 +86,116 @@ Proof.
   split; [exact Hok|]. split; [intros; apply sfx_assign_stable; assumption|intros; eapply sfx_ok_injective; eauto].
 Qed.
 
+(* ---------------------------------------------------------------------------------------------------------
+   Datacenters joining later, allocator leaders and the PD leadership moving (model/C05_Join.v): every member has
+   its own idea of the suffix width (am.mu.maxSuffix); histories are lists of jlabel: the PD leader's checker
+   meeting a dc (suffix assignment), a member's checker refreshing its width, an allocator leader starting on a
+   member (first leader of a joined dc, or a move), a dc losing its leader, the PD leadership moving, Local
+   answers, ticks and (atomic at this layer) Global answers. *)
+
+(* different widths are harmless as long as both suffixes fit the smaller one ... *)
+Theorem C05_distinct_when_suffixes_fit_smaller_width :
+  forall r1 r2 b1 b2 s1 s2, 0 <= b1 -> 0 <= b2 -> 0 <= s1 < 2 ^ Z.min b1 b2 -> 0 <= s2 < 2 ^ Z.min b1 b2 -> s1 <> s2 ->
+    differentiate r1 b1 s1 <> differentiate r2 b2 s2.
+Proof. exact differentiate_distinct_fit. Qed.
+
+(* ... and exactly then: equal values force the wider suffix to look like the other one in the narrow width, and such
+   a suffix does collide *)
+Theorem C05_equal_values_characterised :
+  forall b1 b2 s1 s2, 0 <= b1 <= b2 -> 0 <= s1 < 2 ^ b1 -> 0 <= s2 ->
+    ((exists r1 r2, differentiate r1 b1 s1 = differentiate r2 b2 s2) <-> s2 mod 2 ^ b1 = s1).
+Proof.
+  intros b1 b2 s1 s2 Hb H1 H2. split.
+  - intros (r1 & r2 & E). eapply differentiate_eq_residue; eauto.
+  - intros R. exists (0 * 2 ^ (b2 - b1) + s2 / 2 ^ b1), 0. apply differentiate_collision; assumption.
+Qed.
+
+(* an allocator leader that starts - a dc that joins, or a move - begins at or above the last Global timestamp
+   handed out (GetMaxLocalTSO as repaired), so do all memories of led dcs at any time, and every Local answer lies
+   above that Global timestamp at the raw level *)
+Theorem C05_started_allocator_above_last_global :
+  forall leader g0 ls dc m p s', jstep (jreach leader g0 ls) (JStart dc m p) = Some s' ->
+    tle (jlastg s') (jl s' dc) /\ jhost s' dc = Some m.
+Proof. intros leader g0 ls dc m p s'. apply start_above_last_global. apply jinv_exec. Qed.
+
+Theorem C05_local_above_last_global_with_joins :
+  forall leader g0 ls dc c s' r, jstep (jreach leader g0 ls) (JLocal dc c) = Some s' -> hd_error (jout s') = Some r ->
+    tlt (jlastg (jreach leader g0 ls)) (jP r, jraw r - jcnt r + 1) /\ jwho r = Some dc.
+Proof. intros leader g0 ls dc c s' r. apply local_above_last_global. apply jinv_exec. Qed.
+
+(* the suffix width reported with an answer always covers the suffix used in that answer *)
+Theorem C05_reported_width_covers_own_suffix :
+  forall leader g0 ls r, In r (jout (jreach leader g0 ls)) -> 0 <= jsfx r < 2 ^ jw r.
+Proof. intros leader g0 ls r. apply width_covers_own. apply jinv_exec. Qed.
+
+(* while no serving member lags behind the largest suffix assigned: answers of different allocators differ whatever
+   their raw logicals, the reported width covers every suffix, and a Local answer requested after a Global answer was
+   returned is greater in the returned order (for that last clause it is enough that the answering member does not lag) *)
+Theorem C05_no_lag_allocators_distinct :
+  forall leader g0 ls, let s := jreach leader g0 ls in no_lag s ->
+    (forall dc1 dc2 m1 m2 v1 v2 r1 r2, dc1 <> dc2 -> jhost s dc1 = Some m1 -> jhost s dc2 = Some m2 ->
+       sfx_lookup (jstore s) dc1 = Some v1 -> sfx_lookup (jstore s) dc2 = Some v2 ->
+       differentiate r1 (width_of s m1) v1 <> differentiate r2 (width_of s m2) v2) /\
+    (forall dc m v r1 r2, jhost s dc = Some m -> sfx_lookup (jstore s) dc = Some v ->
+       differentiate r1 (width_of s (jpdl s)) 0 <> differentiate r2 (width_of s m) v).
+Proof.
+  intros leader g0 ls s NL. pose proof (jinv_exec leader g0 ls) as I. split.
+  - intros. eapply nolag_distinct_locals; eauto.
+  - intros. eapply nolag_distinct_global_local; eauto.
+Qed.
+
+Theorem C05_no_lag_width_covers_every_suffix :
+  forall leader g0 ls dc m dc' v', let s := jreach leader g0 ls in no_lag s ->
+    jhost s dc = Some m -> sfx_lookup (jstore s) dc' = Some v' -> v' < 2 ^ width_of s m.
+Proof. intros leader g0 ls dc m dc' v' s NL. apply nolag_width_covers_all; [apply jinv_exec | exact NL]. Qed.
+
+Theorem C05_local_after_global_returned_with_joins :
+  forall leader g0 ls g dc m c s' r, let s := jreach leader g0 ls in
+    In g (jout s) -> jwho g = None -> 0 <= jraw g ->
+    jhost s dc = Some m -> sfx_max (jstore s) <= jview s m ->
+    jstep s (JLocal dc c) = Some s' -> hd_error (jout s') = Some r ->
+    forall i, 0 <= i < jcnt r ->
+    jP g < jP r \/ (jP g = jP r /\ jlogical g < differentiate (jraw r - i) (jw r) (jsfx r)).
+Proof. intros leader g0 ls g dc m c s' r s. apply local_after_global_returned. apply jinv_exec. Qed.
+
+(* without that proviso the three clauses fail, on the history the driver's cluster phase runs against three real
+   members (dc-4 and dc-5 join; the members serving dc-1..dc-3 have not refreshed their width yet): *)
+Definition C05_allocators_distinct_with_joins : Prop :=
+  forall leader g0 ls a b, In a (jout (jreach leader g0 ls)) -> In b (jout (jreach leader g0 ls)) ->
+    who_eqb (jwho a) (jwho b) = false -> shares_value a b = false.
+Theorem C05_allocators_distinct_with_joins_refuted : ~ C05_allocators_distinct_with_joins.
+Proof.
+  intros H. destruct lag_equal_timestamps as (a & b & Ha & Hb & Hw & Hs).
+  rewrite (H 1%nat (1000, 0) cluster_history a b Ha Hb Hw) in Hs. discriminate.
+Qed.
+
+Definition C05_width_covers_every_suffix_with_joins : Prop :=
+  forall leader g0 ls r v, In r (jout (jreach leader g0 ls)) -> In v (map snd (jstore (jreach leader g0 ls))) -> v < 2 ^ jw r.
+Theorem C05_width_covers_every_suffix_with_joins_refuted : ~ C05_width_covers_every_suffix_with_joins.
+Proof.
+  intros H. destruct lag_width_too_small as (r & v & Hr & Hv & Hle).
+  pose proof (H 1%nat (1000, 0) cluster_history r v Hr Hv) as H1. lia.
+Qed.
+
+Definition C05_local_after_global_greater_with_joins : Prop :=
+  forall leader g0 ls i j g r, nth_error (jout (jreach leader g0 ls)) i = Some g -> nth_error (jout (jreach leader g0 ls)) j = Some r ->
+    (j < i)%nat -> jwho g = None -> jwho r <> None -> jP g = jP r -> jlogical g < jlogical r.
+Theorem C05_local_after_global_greater_with_joins_refuted : ~ C05_local_after_global_greater_with_joins.
+Proof.
+  intros H. destruct lag_local_below_earlier_global as (g & r & Hg & Hr & Wg & Wr & HP & Hlt).
+  assert (Wr' : jwho r <> None) by (rewrite Wr; discriminate).
+  pose proof (H 1%nat (1000, 0) cluster_history 3%nat 2%nat g r Hg Hr ltac:(lia) Wg Wr' HP) as H1. lia.
+Qed.
+
+(* the join history is non-vacuous for the positive theorems too: dc-4 starts one hour ahead, at the last Global answer *)
+Example C05_join_history_values :
+  let s := jreach 1 (1000, 0) cluster_history in
+  (map (fun r => (jwho r, jP r, jraw r, jcnt r, jsfx r, jw r)) (jout s), jlastg s) =
+  ([(Some 5%nat, 3601000, 27, 24, 5, 3); (Some 1%nat, 3601000, 28, 24, 1, 2); (Some 1%nat, 3601000, 4, 1, 1, 2);
+    (None, 3601000, 3, 1, 0, 3); (Some 4%nat, 3601000, 2, 1, 4, 3); (None, 3601000, 1, 1, 0, 2); (None, 1000, 1, 1, 0, 2)],
+   (3601000, 3)).
+Proof. vm_compute. reflexivity. Qed.
+
 (* non-vacuity: two dcs, locals ahead of the Global allocator, a Global batch of 3 *)
 Example C05_nonvacuous :
   let ls := [LLocalGen 0 5; LLocalGen 1 2; LGBegin 3 0; LGRead; LGRead; LGDecide; LGNextPass; LGRead; LLocalGen 0 1; LGRead; LGDecide;
@@ -104,3 +214,14 @@ Print Assumptions C05_cross_allocator_distinct_partial.
 Print Assumptions C05_cross_allocator_distinct_full_refuted.
 Print Assumptions C05_bits_cover_suffixes.
 Print Assumptions C05_suffix_stable_injective.
+Print Assumptions C05_distinct_when_suffixes_fit_smaller_width.
+Print Assumptions C05_equal_values_characterised.
+Print Assumptions C05_started_allocator_above_last_global.
+Print Assumptions C05_local_above_last_global_with_joins.
+Print Assumptions C05_reported_width_covers_own_suffix.
+Print Assumptions C05_no_lag_allocators_distinct.
+Print Assumptions C05_no_lag_width_covers_every_suffix.
+Print Assumptions C05_local_after_global_returned_with_joins.
+Print Assumptions C05_allocators_distinct_with_joins_refuted.
+Print Assumptions C05_width_covers_every_suffix_with_joins_refuted.
+Print Assumptions C05_local_after_global_greater_with_joins_refuted.
